@@ -380,3 +380,69 @@ Definition h_vhost_cfg (reqs : list hreq) : hcfg :=
   {| hc_reqs := reqs; hc_chan_first := false; hc_close_on_fail := h_code_closes_on_fail |}.
 Definition h_group_cfg (reqs : list hreq) : hcfg :=
   {| hc_reqs := reqs; hc_chan_first := true; hc_close_on_fail := h_code_closes_on_fail |}.
+
+(* ---------- visitor listener (pkg/util/net/listener.go InternalListener) and its accept loop ---------- *)
+(* NewInternalListener: acceptCh = make(chan net.Conn, 128)
+   PutConn (visitor.Manager.NewConn):  PanicToError(select { case acceptCh <- conn: / default: conn.Close() });
+                                       a panic (closed channel) becomes an error and the caller
+                                       (Service.handleConnection) closes the connection
+   Close:   mu; if !closed { close(acceptCh); closed = true }
+   Accept:  conn, ok := <-acceptCh; !ok -> error   (a closed channel still yields what is queued)
+   BaseProxy.startCommonTCPListenersHandler: for { c, err := l.Accept(); err (not temporary) -> return;
+                                                   go handleUserTCPConnection(c) } *)
+
+Inductive ireq := IPut | IClose | ILoop.
+Inductive ipc := IPSend | IPCloseIt | IPEnd | ICGo | ICEnd | ILRun | ILEnd.
+
+Inductive ifate :=
+| INoConn
+| IOffered            (* with the goroutine that calls PutConn *)
+| IQueued             (* in acceptCh *)
+| IHandled            (* handed to handleUserTCPConnection: the direct-path theorems apply from here *)
+| IClosed.
+
+Record ist := {
+  is_ch : pchan;
+  is_flag : bool;               (* InternalListener.closed *)
+  is_fate : nat -> ifate;
+  is_thr : nat -> option ipc
+}.
+
+Record icfg := { ic_cap : Z; ic_reqs : list ireq }.
+Definition il_code_cap : Z := 128.
+
+Definition il_init (cfg : icfg) : ist :=
+  {| is_ch := {| ch_cap := ic_cap cfg; ch_q := []; ch_closed := false |};
+     is_flag := false;
+     is_fate := fun c => match nth_error (ic_reqs cfg) c with Some IPut => IOffered | _ => INoConn end;
+     is_thr := fun t => match nth_error (ic_reqs cfg) t with
+                        | Some IPut => Some IPSend | Some IClose => Some ICGo | Some ILoop => Some ILRun
+                        | None => None end |}.
+
+Definition il_step (s : ist) (t : nat) : ist :=
+  match is_thr s t with
+  | Some IPSend =>
+      match ch_try_send t (is_ch s) with
+      | (ch, SOk) => {| is_ch := ch; is_flag := is_flag s; is_fate := upd (is_fate s) t IQueued;
+                        is_thr := upd (is_thr s) t (Some IPEnd) |}
+      | (_, SFull) => {| is_ch := is_ch s; is_flag := is_flag s; is_fate := upd (is_fate s) t IClosed;   (* default: conn.Close() *)
+                         is_thr := upd (is_thr s) t (Some IPEnd) |}
+      | (_, SPanic) => {| is_ch := is_ch s; is_flag := is_flag s; is_fate := is_fate s;                  (* "listener is closed" *)
+                          is_thr := upd (is_thr s) t (Some IPCloseIt) |}
+      end
+  | Some IPCloseIt => {| is_ch := is_ch s; is_flag := is_flag s; is_fate := upd (is_fate s) t IClosed;
+                         is_thr := upd (is_thr s) t (Some IPEnd) |}
+  | Some ICGo =>
+      if is_flag s then {| is_ch := is_ch s; is_flag := true; is_fate := is_fate s; is_thr := upd (is_thr s) t (Some ICEnd) |}
+      else {| is_ch := ch_close (is_ch s); is_flag := true; is_fate := is_fate s; is_thr := upd (is_thr s) t (Some ICEnd) |}
+  | Some ILRun =>
+      match ch_try_recv (is_ch s) with
+      | (ch, RGot c) => {| is_ch := ch; is_flag := is_flag s; is_fate := upd (is_fate s) c IHandled; is_thr := is_thr s |}
+      | (_, RClosed) => {| is_ch := is_ch s; is_flag := is_flag s; is_fate := is_fate s; is_thr := upd (is_thr s) t (Some ILEnd) |}
+      | (_, REmpty) => s
+      end
+  | Some IPEnd | Some ICEnd | Some ILEnd | None => s
+  end.
+
+Definition il_run (sched : list nat) (s : ist) : ist := fold_left il_step sched s.
+Definition il_exec (cfg : icfg) (sched : list nat) : ist := il_run sched (il_init cfg).
